@@ -523,6 +523,7 @@ enum Action
     Despawn(Entity, bool),
     Gc,
     Poll,
+    AutoDespawn(Entity),
     With{ cmd: Entity, mode: RegMode, bundle: DynBundle, token_slot: Option<u16> },
     Fresh{ uid: SysUid, def: Arc<SysDef>, api: FreshApi, bundle: DynBundle, token_slot: Option<u16> },
     Revoke(RevokeToken),
@@ -586,6 +587,7 @@ fn resolve_op(op: &Op, own: Option<SysUid>) -> (Resolved, Action)
             }
             Op::Gc => (Resolved::None, Action::Gc),
             Op::Poll => (Resolved::None, Action::Poll),
+            Op::AutoDespawn(e) => (Resolved::None, Action::AutoDespawn(ent(case, *e))),
             Op::Probe(x) => (Resolved::None, Action::Probe(*x)),
             Op::Revoke(slot) =>
             {
@@ -719,6 +721,7 @@ fn perform(c: &mut Commands, action: Action, resolved: &Resolved)
         }),
         Action::Gc => c.queue(|w: &mut World| garbage_collect_entities(w)),
         Action::Poll => c.queue(|w: &mut World| schedule_removal_and_despawn_reactors(w)),
+        Action::AutoDespawn(e) => c.queue(move |w: &mut World| { let sig = w.resource::<AutoDespawner>().prepare(e); drop(sig); }),
         Action::Probe(false) => c.syscall((), probe_sys),
         Action::Probe(true) => c.syscall((), probe_excl_sys),
         Action::Revoke(token) => c.react().revoke(token),
@@ -836,6 +839,7 @@ fn direct_op(world: &mut World, sender: Sender, op: &Op)
         Action::ResTrigger(_) => world.trigger_resource_mutation::<RB>(),
         Action::Gc => garbage_collect_entities(world),
         Action::Poll => schedule_removal_and_despawn_reactors(world),
+        Action::AutoDespawn(e) => { let sig = world.resource::<AutoDespawner>().prepare(e); drop(sig); }
         Action::Despawn(e, rec) =>
         {
             if let Ok(em) = world.get_entity_mut(e) { if rec { em.despawn_recursive(); } else { em.despawn(); } }
@@ -982,11 +986,13 @@ fn run_inner(program: &Program)
         case.pool = pool.clone();
         case.templates = program.setup.templates.iter().cloned().map(Arc::new).collect();
     });
+    let mut pairs: Vec<(u8, u8)> = Vec::new();
     for (child, parent) in program.setup.hierarchy.iter()
     {
         let (c, p) = (*child as usize % n, *parent as usize % n);
-        if p < c { world.entity_mut(pool[c]).set_parent(pool[p]); }
+        if p < c && !pairs.iter().any(|x| x.0 == c as u8) { world.entity_mut(pool[c]).set_parent(pool[p]); pairs.push((c as u8, p as u8)); }
     }
+    push(Ev::Hierarchy(pairs));
     for (i, (ca, cb)) in program.setup.comps.iter().enumerate()
     {
         if i >= n { break; }
@@ -1000,7 +1006,14 @@ fn run_inner(program: &Program)
     {
         let def = Arc::new(def.clone());
         let uid = with_case(|case| case.add_system(def.clone(), None, Some(i as u8), None));
-        let cmd = with_sys!(def, uid, |s| world.spawn_system_command(s));
+        // every way of spawning a persistent system command
+        let cmd = match i % 4
+        {
+            0 => with_sys!(def, uid, |s| world.spawn_system_command(s)),
+            1 => with_sys!(def, uid, |s| bevy_cobweb::prelude::spawn_system_command(world, s)),
+            2 => { let cmd = with_sys!(def, uid, |s| world.commands().spawn_system_command(s)); world.flush(); cmd }
+            _ => with_sys!(def, uid, |s| spawn_system_command_from(world, SystemCommandCallback::new(s))),
+        };
         with_case(|case| case.bind_system_entity(uid, *cmd));
     }
 
